@@ -344,3 +344,21 @@ Proof.
   destruct IH as (ts & Hts). simpl. rewrite Hts. unfold tterm_of.
   destruct (t_coef t); simpl in *; try contradiction; eexists; reflexivity.
 Qed.
+
+(** ** the same for a Jacobian entry: its text, read as C, is the formal derivative of the row *)
+Section JacText.
+Variable R : Type.
+Variables (rO rI : R) (radd rmul rsub : R -> R -> R) (ropp : R -> R).
+Hypothesis Rth : ring_theory rO rI radd rmul rsub ropp (@eq R).
+
+Theorem jac_text_lemma (E : env R) (i : ode_input) (row col : nat) (ts : list tterm) :
+  wf_input i -> row < n_eqns i -> col < n_eqns i -> tterms_of (jac_entry i row col) = Some ts ->
+  exists e, parse (rhs_txt ts) = Some e /\
+            den R rO radd rmul rsub E e = deqn R rO rI radd rmul ropp E col (rhs_row i row).
+Proof.
+  intros Hwf Hr Hc Hts. exists (sum_ex zero_lit (map to_sterm ts)). split.
+  - apply parse_rhs.
+  - rewrite (den_sum R rO rI radd rmul rsub ropp Rth E _ _ Hts).
+    apply (jac_is_formal_derivative R rO rI radd rmul rsub ropp Rth); assumption.
+Qed.
+End JacText.
